@@ -653,3 +653,160 @@ Proof. intros. unfold close_order. apply close_ctx_perm. Qed.
 
 Lemma exactly_once_nodup : forall c : rctx, NoDup (open_order c) -> NoDup (close_order c).
 Proof. intros c H. eapply Permutation_NoDup; [apply exactly_once_tree | exact H]. Qed.
+
+(* ------------------------------------------------------------------ every order violation is below a sub-context *)
+Definition own_ids_item (it : item) : list nat := match it with Own d _ => [d] | Sub _ => [] end.
+Fixpoint clo_item (it : item) : list nat :=
+  match it with
+  | Own _ _ => []
+  | Sub c => flat_map clo_item c ++ rev (flat_map own_ids_item c)
+  end.
+Definition clo (c : rctx) : list nat := flat_map clo_item c ++ rev (flat_map own_ids_item c).
+
+Lemma own_ids_owns : forall c : rctx, flat_map own_ids_item c = map fst (owns c).
+Proof.
+  induction c as [|it t IH]; [reflexivity|]. unfold owns in *. simpl. rewrite map_app, <- IH.
+  destruct it; reflexivity.
+Qed.
+
+Lemma clo_item_close : forall a it, map fst (close_item a it) = clo_item it.
+Proof.
+  intros a. apply item_ind'.
+  - reflexivity.
+  - intros c H. simpl. rewrite map_app, map_fst_close_dep, map_rev, own_ids_owns. f_equal.
+    induction H as [|x t Hx _ IH]; [reflexivity|]. simpl. now rewrite map_app, Hx, IH.
+Qed.
+
+Lemma clo_close : forall pe a (c : rctx), map fst (close_ctx pe a c) = clo c.
+Proof.
+  intros. unfold close_ctx, clo. rewrite map_app, map_fst_close_dep, map_rev, own_ids_owns. f_equal.
+  induction c as [|x t IH]; [reflexivity|]. simpl. now rewrite map_app, clo_item_close, IH.
+Qed.
+
+Lemma clo_cons_own : forall d s (t : rctx), clo (Own d s :: t) = clo t ++ [d].
+Proof. intros. unfold clo. simpl. now rewrite app_assoc. Qed.
+Lemma clo_cons_sub : forall s (t : rctx), clo (Sub s :: t) = clo s ++ clo t.
+Proof. intros. unfold clo. simpl. fold (clo s). now rewrite <- app_assoc. Qed.
+
+Lemma clo_perm : forall c : rctx, Permutation (open_order c) (clo c).
+Proof. intros. rewrite <- (clo_close true false). apply close_ctx_perm. Qed.
+
+Lemma before_in : forall l x y, before l x y -> In x l /\ In y l.
+Proof.
+  intros l x y [l1 [l2 [E H]]]. subst l. split; apply in_or_app; right; [now left | now right].
+Qed.
+
+Lemma before_app_inv : forall a b x y, before (a ++ b) x y ->
+  before a x y \/ (In x a /\ In y b) \/ before b x y.
+Proof.
+  induction a as [|h a IH]; intros b x y H.
+  - right. right. exact H.
+  - destruct H as [l1 [l2 [E Hy]]]. destruct l1 as [|h' l1]; simpl in E; inversion E; subst.
+    + apply in_app_or in Hy. destruct Hy as [Hy|Hy].
+      * left. exists [], a. auto.
+      * right. left. split; [now left | exact Hy].
+    + destruct (IH b x y) as [G|[[G1 G2]|G]].
+      * exists l1, l2. auto.
+      * left. destruct G as [m1 [m2 [E' Hy']]]. exists (h' :: m1), m2. subst a. auto.
+      * right. left. split; [now right | exact G2].
+      * right. right. exact G.
+Qed.
+
+Lemma nodup_app_disj : forall (a b : list nat) x, NoDup (a ++ b) -> In x a -> In x b -> False.
+Proof.
+  induction a as [|h a IH]; intros b x Hn Ha Hb; [destruct Ha|]. simpl in Hn. inversion Hn; subst.
+  destruct Ha as [->|Ha].
+  - apply H1. apply in_or_app. now right.
+  - eapply IH; eauto.
+Qed.
+Lemma nodup_app_l : forall (a b : list nat), NoDup (a ++ b) -> NoDup a.
+Proof. induction a; intros b H; [constructor|]. simpl in H. inversion H; subst. constructor.
+  - intros Hc. apply H2. apply in_or_app. now left.
+  - eapply IHa; eauto.
+Qed.
+Lemma nodup_app_r : forall (a b : list nat), NoDup (a ++ b) -> NoDup b.
+Proof. induction a; intros b H; [exact H|]. simpl in H. inversion H; subst. eapply IHa; eauto. Qed.
+
+Lemma before_single : forall d x y, before [d] x y -> False.
+Proof.
+  intros d x y [l1 [l2 [E H]]]. destruct l1 as [|h l1]; simpl in E; inversion E; subst.
+  - destruct H.
+  - destruct l1; discriminate.
+Qed.
+
+Definition explained (c : rctx) (x y : nat) : Prop :=
+  exists s, SubOf c s /\ In x (open_order s) /\ ~ In y (open_order s).
+
+Lemma explained_tail : forall it (t : rctx) x y, explained t x y -> explained (it :: t) x y.
+Proof.
+  intros it t x y [s [H [Hx Hy]]]. exists s. split; [|auto]. inversion H; subst.
+  - apply sub_here. now right.
+  - eapply sub_deep; [right; eassumption | assumption].
+Qed.
+Lemma explained_head : forall s (t : rctx) x y, explained s x y -> explained (Sub s :: t) x y.
+Proof.
+  intros s t x y [s' [H [Hx Hy]]]. exists s'. split; [|auto]. eapply sub_deep; [left; reflexivity | exact H].
+Qed.
+
+Definition inv_stmt (c : rctx) : Prop :=
+  forall x y, NoDup (open_order c) -> before (open_order c) x y -> before (clo c) x y -> explained c x y.
+Definition inv_item (it : item) : Prop := match it with Own _ _ => True | Sub s => inv_stmt s end.
+
+Lemma inv_list : forall c : rctx, Forall inv_item c -> inv_stmt c.
+Proof.
+  intros c H. induction H as [|it t Hit _ IH]; intros x y Hn Ho Hc.
+  - destruct Ho as [l1 [l2 [E _]]]. destruct l1; discriminate.
+  - destruct it as [d s|s].
+    + (* own dependency first: it closes last *)
+      change (open_order (Own d s :: t)) with ([d] ++ open_order t) in *. rewrite clo_cons_own in Hc.
+      assert (Hd : ~ In d (open_order t)).
+      { intros Hi. eapply nodup_app_disj; [exact Hn | now left | exact Hi]. }
+      assert (Hdc : ~ In d (clo t)).
+      { intros Hi. apply Hd. eapply Permutation_in; [apply Permutation_sym, clo_perm | exact Hi]. }
+      apply before_app_inv in Ho. destruct Ho as [Ho|[[Hx Hy]|Ho]].
+      * exfalso. eapply before_single; eauto.
+      * destruct Hx as [<-|[]]. exfalso.
+        apply before_app_inv in Hc. destruct Hc as [Hc|[[H1 _]|Hc]].
+        -- apply before_in in Hc. tauto.
+        -- tauto.
+        -- eapply before_single; eauto.
+      * apply explained_tail. apply IH; [eapply nodup_app_r; eauto | exact Ho |].
+        apply before_in in Ho. destruct Ho as [Hx Hy].
+        apply before_app_inv in Hc. destruct Hc as [Hc|[[_ H2]|Hc]].
+        -- exact Hc.
+        -- destruct H2 as [<-|[]]. tauto.
+        -- exfalso. eapply before_single; eauto.
+    + (* a sub-context first *)
+      change (open_order (Sub s :: t)) with (open_order s ++ open_order t) in *. rewrite clo_cons_sub in Hc.
+      assert (Hdis : forall z, In z (open_order s) -> In z (open_order t) -> False).
+      { intros z. apply nodup_app_disj. exact Hn. }
+      assert (Hcs : forall z, In z (clo s) -> In z (open_order s)).
+      { intros z Hz. eapply Permutation_in; [apply Permutation_sym, clo_perm | exact Hz]. }
+      assert (Hct : forall z, In z (clo t) -> In z (open_order t)).
+      { intros z Hz. eapply Permutation_in; [apply Permutation_sym, clo_perm | exact Hz]. }
+      apply before_app_inv in Ho. destruct Ho as [Ho|[[Hx Hy]|Ho]].
+      * apply explained_head. simpl in Hit. apply Hit; [eapply nodup_app_l; eauto | exact Ho |].
+        apply before_in in Ho. destruct Ho as [Hx Hy].
+        apply before_app_inv in Hc. destruct Hc as [Hc|[[_ H2]|Hc]].
+        -- exact Hc.
+        -- exfalso. apply (Hdis y); [exact Hy | apply Hct; exact H2].
+        -- exfalso. apply before_in in Hc. destruct Hc as [H1 _]. apply (Hdis x); [exact Hx | apply Hct; exact H1].
+      * exists s. split; [apply sub_here; now left|]. split; [exact Hx|]. intros Hy'. eapply Hdis; eauto.
+      * apply explained_tail. apply IH; [eapply nodup_app_r; eauto | exact Ho |].
+        apply before_in in Ho. destruct Ho as [Hx Hy].
+        apply before_app_inv in Hc. destruct Hc as [Hc|[[H1 _]|Hc]].
+        -- exfalso. apply before_in in Hc. destruct Hc as [H1 _]. apply (Hdis x); [apply Hcs; exact H1 | exact Hx].
+        -- exfalso. apply (Hdis x); [apply Hcs; exact H1 | exact Hx].
+        -- exact Hc.
+Qed.
+
+Lemma inv_item_all : forall it, inv_item it.
+Proof. apply item_ind'; simpl; [trivial|]. intros c H. now apply inv_list. Qed.
+
+Lemma reverse_partial_sharp : forall (c : rctx) x y,
+  NoDup (open_order c) -> before (open_order c) x y -> before (close_order c) x y ->
+  exists s, SubOf c s /\ In x (open_order s) /\ ~ In y (open_order s).
+Proof.
+  intros c x y Hn Ho Hc. unfold close_order in Hc. rewrite clo_close in Hc.
+  apply (inv_list c); auto. apply rctx_all; intros; apply (inv_item_all (Own d s)) || apply (inv_item_all (Sub c0)).
+Qed.
